@@ -69,7 +69,9 @@ func Start() *Engine {
 			case w := <-e.addWatcher:
 				logrus.Info("Add watcher")
 				watchers[w.id] = w
-				w.update(ctx, global)
+				if !w.update(ctx, global) {
+					delete(watchers, w.id)
+				}
 			case id := <-e.removeWatcher:
 				logrus.Info("Remove watcher")
 				watchers[id].close()
@@ -87,7 +89,9 @@ func Start() *Engine {
 				global = global.With(Root, value)
 				for i, w := range watchers {
 					logrus.Infof("Update watcher %d", i)
-					w.update(ctx, global)
+					if !w.update(ctx, global) {
+						delete(watchers, i)
+					}
 				}
 			case <-e.stop:
 				logrus.Infof("Stop")
@@ -146,23 +150,28 @@ type watcher struct {
 	onclose  func(error)
 }
 
-func (w *watcher) update(ctx context.Context, global rel.Scope) {
+// update sends the watcher the value of its expression. It returns false if
+// the watcher failed and must be dropped by the engine loop (which is the
+// caller, so the watcher cannot cancel itself through the loop's channels).
+func (w *watcher) update(ctx context.Context, global rel.Scope) (alive bool) {
 	defer func() {
 		if err := recover(); err != nil {
 			w.onclose(errors.WrapPrefix(err, "update panic", 0))
+			alive = false
 		}
 	}()
 
 	value, err := w.expr.Eval(ctx, global)
 	if err != nil {
-		w.cancel()
 		w.onclose(err)
-		return
+		return false
 	}
 
 	if err = w.onupdate(value); err != nil {
-		w.cancel()
+		w.close()
+		return false
 	}
+	return true
 }
 
 func (w *watcher) close() {
